@@ -85,9 +85,25 @@ def to_real(v):
         return tuple(to_real(x) for x in v)
     if isinstance(v, list):
         return [to_real(x) for x in v]
-    if isinstance(v, dict):
+    if isinstance(v, dict) and "__rec__" in v:
+        rn = v["__rec__"]
+        if rn in RECORD_CLASSES:
+            rel, cn = RECORD_CLASSES[rn]
+            cls = getattr(repo_import(rel), cn)
+            o = cls.__new__(cls)
+            for k, x in v.items():
+                if k != "__rec__":
+                    setattr(o, k, to_real(x))
+            return o
         return {k: to_real(x) for k, x in v.items()}
+    if isinstance(v, dict):
+        return {to_real(k): to_real(x) for k, x in v.items()}
+    if isinstance(v, set):
+        return {to_real(x) for x in v}
     return v
+
+
+RECORD_CLASSES = {}  # record shape name -> (repo file, class name); filled by contracts
 
 
 class NativeOutcome:
@@ -236,7 +252,7 @@ def search_violation(c, rng, budget=3000, size=4):
     for argmap in gen:
         tried += 1
         try:
-            o = check_native(c, argmap, env)
+            o = check_native(c, to_real(argmap), env)
         except Exception as ex:  # builder problems etc.
             continue
         if o.pre_ok:
